@@ -1,11 +1,11 @@
-\* C08 thorough, 3 shards, code as is (no epochs, read-only flips only)
+\* C08 thorough, 3 shards, code as is: LOCK || TOMBSTONE in every visiting order, one shard may be read-only
 SPECIFICATION Spec
 CONSTANTS
   NS = 3
   MaxEpoch = 1
   BugH6 = TRUE
   CatSet = "c08"
-  Ops = {"Put", "Bcast", "GC", "SetMode"}
+  Ops = {"Put", "Bcast", "GC", "SetMode1"}
   Modes = {"rw", "ro"}
   HealthyLock = FALSE
   MaxInFlight = 2
